@@ -620,7 +620,7 @@ int main(int argc, char** argv) {
   }
 
   // ---- part A, random (rapidcheck tapes; the length is swept, content and keys come from the tape) -----
-  const int per_len = thorough ? 167 : 3;   // 601 * 3 = 1803 (quick), 601 * 167 = 100367 (thorough)
+  const int per_len = thorough ? 167 : 20;   // 601 * 3 = 1803 (quick), 601 * 167 = 100367 (thorough)
   long random_cases = 0;
   for (size_t len = 0; len <= 600; len++) {
     if ((int)(len % (size_t)a.nshards) != a.shard) continue;
@@ -656,7 +656,7 @@ int main(int argc, char** argv) {
     }
   }
   rep.label("random-tape-cases", random_cases);
-  rep.label(thorough ? "random-per-length:167" : "random-per-length:3");
+  rep.label(thorough ? "random-per-length:167" : "random-per-length:20");
 
   rep.exhaustive = false;
   rep.write("done");
